@@ -20,6 +20,7 @@ import ReuseVerif.Lemmas.C02TailSafe
 import ReuseVerif.Lemmas.C02Copyright
 import ReuseVerif.Lemmas.C02Extract
 import ReuseVerif.Lemmas.C02Blocks
+import ReuseVerif.Lemmas.C02Window
 import ReuseVerif.Theorems.C12
 import ReuseVerif.Theorems.C20
 
@@ -740,5 +741,92 @@ example : extractRawWith Generated.endRe (blocksText "# SPDX-License-Identifier:
       · exact C02L.infoLine_ok_of_syn _ _ [] (by decide +kernel)
       · exact C02L.infoLine_ok_of_syn _ _ [] (by decide +kernel))]
   decide +kernel
+
+/-! ### files -/
+
+/-- A file that is the UTF-8 encoding of a text without carriage returns and that fits the window or holds the snippet
+    indicator is read as that text. -/
+theorem C02_file_of_text (parses : Text → Bool) (t : Text) (hcr : '\r' ∉ t)
+    (hfit : (encodeUtf8 t).length ≤ 4096 ∨ containsSnippet (encodeUtf8 t) = true) :
+    infoOfFile parses (encodeUtf8 t) = infoOfDecoded parses t := by
+  unfold infoOfFile
+  rw [C02L.window_all _ hfit, C02L.decodedText_encode _ hcr]
+
+/-- `C02_file_exact` for a file with ignore blocks. -/
+theorem C02_file_exact_with_blocks (parses : Text → Bool)
+    (a0 : Text) (bs : List (Text × Text)) (o : Option Text) (hch : chunksOK a0 bs o = true)
+    (ls : List InfoLine) (hvis : visibleText a0 bs = infoTextOf ls) (hok : ∀ l ∈ ls, l.ok Generated.endRe = true)
+    (hparse : ∀ v ∈ (plantedInfo ls).lic, parses v = true)
+    (hcr : '\r' ∉ blocksText a0 bs o)
+    (hfit : (encodeUtf8 (blocksText a0 bs o)).length ≤ 4096 ∨ containsSnippet (encodeUtf8 (blocksText a0 bs o)) = true) :
+    infoOfFile parses (encodeUtf8 (blocksText a0 bs o)) =
+      if (plantedInfo ls).lic.isEmpty && (plantedInfo ls).cpr.isEmpty then Extracted.empty else plantedInfo ls := by
+  rw [C02_file_of_text parses _ hcr hfit]
+  exact C02L.infoOfDecoded_of_extract parses _ _
+    (C02_extract_exact_with_blocks Generated.endRe C02_end_guarded a0 bs o hch ls hvis hok) hparse
+
+/-- **A well-formed line lying wholly inside the first 4096 bytes is read** — any of the three kinds, after *any* text
+    `U` that ends a line and holds no `REUSE-IgnoreStart` (tags, values running on, unclosed quotes: no "tag-free lines
+    above" restriction), followed by arbitrary bytes `more` (a `REUSE-IgnoreStart`, invalid UTF-8, a character cut by
+    the window, …: nothing is assumed about the decoded rest), with or without snippet indicator.  Generalises
+    `C02_window_finds_inside`. -/
+theorem C02_window_finds_line (l : InfoLine) (hok : l.ok Generated.endRe = true) (U : Text)
+    (hU : U = [] ∨ ∃ u, U = u ++ ['\n']) (hUign : findSub Generated.ignoreStart U = none) (more : Bytes)
+    (hcr : '\r' ∉ U ++ (l.text ++ ['\n']))
+    (hlen : (encodeUtf8 (U ++ (l.text ++ ['\n']))).length ≤ 4096) :
+    (∀ v, l.licValue = some v →
+      v ∈ (extractRaw (decodedText (window (encodeUtf8 (U ++ (l.text ++ ['\n'])) ++ more)))).lic) ∧
+    (∀ v, l.conValue = some v →
+      v ∈ (extractRaw (decodedText (window (encodeUtf8 (U ++ (l.text ++ ['\n'])) ++ more)))).con) ∧
+    (∀ n, l.notice = some n →
+      n ∈ (extractRaw (decodedText (window (encodeUtf8 (U ++ (l.text ++ ['\n'])) ++ more)))).cpr) := by
+  obtain ⟨tailText, ht⟩ := decodedText_window_head _ more hcr hlen
+  obtain ⟨hlic, hcon, hcpr, _, hlign⟩ := C02L.infoLine_ok_parts hok
+  have hfilter : filterIgnore (U ++ (l.text ++ ['\n']) ++ tailText) = U ++ (l.text ++ '\n' :: filterIgnore tailText) := by
+    rw [C02L.filterIgnore_head _ tailText
+      (C02L.findSub_head_none _ (by decide) (by decide) U l.text hU hUign hlign) (C02L.atLS_head U l.text)]
+    simp [List.append_assoc]
+  rw [ht]
+  unfold extractRaw extractRawWith
+  simp only [hfilter, mem_dedup]
+  refine ⟨fun v hv => ?_, fun v hv => ?_, fun n hn => ?_⟩
+  · cases l with
+    | lic s =>
+      simp only [InfoLine.licValue, Option.some.injEq] at hv
+      subst hv
+      exact C02_tag_found_anywhere Generated.endRe Generated.licenseTag (by decide) (by decide +kernel) s
+        (C02L.tagLineFound_of_ok hlic) U _ hU
+    | con s => cases hv
+    | cpr x y h pre trail => cases hv
+    | other t => cases hv
+  · cases l with
+    | con s =>
+      simp only [InfoLine.conValue, Option.some.injEq] at hv
+      subst hv
+      exact C02_tag_found_anywhere Generated.endRe Generated.contributorTag (by decide) (by decide +kernel) s
+        (C02L.tagLineFound_of_ok hcon) U _ hU
+    | lic s => cases hv
+    | cpr x y h pre trail => cases hv
+    | other t => cases hv
+  · cases l with
+    | cpr x y h pre trail =>
+      simp only [InfoLine.notice, Option.some.injEq] at hn
+      subst hn
+      have hread := C02_copyright_line_read Generated.endRe _ hcpr
+      exact C02L.cprLines_embed Generated.endRe U _ _ hU (C02L.cprLine_text_noBreak _ _ hcpr) _ hread
+    | lic s => cases hn
+    | con s => cases hn
+    | other t => cases hn
+
+/-- the hypotheses are satisfiable: a contributor line whose quoted value runs on, then the notice line, then a
+    `REUSE-IgnoreStart` and a truncated multi-byte sequence -/
+example : "Copyright (C) 2019-2021 Example Corp".toList ∈ (extractRaw (decodedText (window
+    (encodeUtf8 ("SPDX-FileContributor: \"Jane\n".toList ++
+      ((InfoLine.cpr ("Copyright (C)".toList, .word, " (C)".toList) (.range "2019".toList false false "2021".toList)
+        "Example Corp".toList " * ".toList " -->".toList).text ++ ['\n'])) ++
+      (encodeUtf8 "# REUSE-IgnoreStart".toList ++ [0xE2, 0x82]))))).cpr :=
+  (C02_window_finds_line _ (C02L.infoLine_ok_of_syn _ _ [" ".toList, "-->".toList] (by decide +kernel))
+    "SPDX-FileContributor: \"Jane\n".toList (.inr ⟨"SPDX-FileContributor: \"Jane".toList, by decide⟩) (by decide +kernel) _
+    (by decide +kernel) (by decide +kernel)).2.2 _ rfl
 
 end C02
